@@ -8,7 +8,8 @@ Inductive ltok :=
 | LId (name : bytes)                 (* an identifier that is not a keyword *)
 | LWord (ty : ttype) (w : bytes)     (* a keyword spelled with identifier characters (by, json, or, ...), not a function name *)
 | LPunct (ty : ttype) (w : bytes)    (* an operator / punctuation token of one or two characters *)
-| LStr (v : bytes).                  (* "..." with quote and backslash escaped *)
+| LStr (v : bytes)                   (* "..." with quote and backslash escaped *)
+| LFun (ty : ttype) (w : bytes).     (* a function keyword (rate, sum, ip, ...): keeps its type when an opening parenthesis follows *)
 
 Fixpoint esc (k : bytes) : bytes :=
   match k with
@@ -17,9 +18,9 @@ Fixpoint esc (k : bytes) : bytes :=
   end.
 
 Definition ltext (t : ltok) : bytes :=
-  match t with LId n => n | LWord _ w => w | LPunct _ w => w | LStr v => """"%byte :: esc v ++ [""""%byte] end.
+  match t with LId n => n | LWord _ w => w | LPunct _ w => w | LStr v => """"%byte :: esc v ++ [""""%byte] | LFun _ w => w end.
 Definition lres (t : ltok) : ttype * bytes :=
-  match t with LId n => (TIdent, n) | LWord ty w => (ty, w) | LPunct ty w => (ty, w) | LStr v => (TString, v) end.
+  match t with LId n => (TIdent, n) | LWord ty w => (ty, w) | LPunct ty w => (ty, w) | LStr v => (TString, v) | LFun ty w => (ty, w) end.
 
 Definition printable (c : byte) : bool := (32 <=? bz c) && (bz c <=? 126).
 (** a punctuation character: in the alphabet, and none of the characters the lexer treats specially before the table lookup *)
@@ -38,6 +39,7 @@ Definition wf_ltok (t : ltok) : Prop :=
       | _ => False
       end
   | LStr v => forallb printable v = true
+  | LFun ty w => is_valid_label w = true /\ lookup_kw w keyword_table = Some ty /\ is_function ty = true
   end.
 
 Definition all_space (ws : bytes) : Prop := ws <> [] /\ forallb is_space_b ws = true.
@@ -188,19 +190,56 @@ Definition wf_item (p : ltok * bytes) : Prop := wf_ltok (fst p) /\ all_space (sn
 
 Lemma ltext_len t : wf_ltok t -> (1 <= length (ltext t))%nat.
 Proof.
-  destruct t as [n|ty w|ty w|v]; cbn [wf_ltok ltext].
+  destruct t as [n|ty w|ty w|v|ty w]; cbn [wf_ltok ltext].
   - intros [H _]. unfold is_valid_label in H. destruct n; [discriminate|cbn; lia].
   - intros [H _]. unfold is_valid_label in H. destruct w; [discriminate|cbn; lia].
   - destruct w as [|c [|d [|e w']]]; try contradiction; cbn; lia.
   - intros _. cbn. lia.
+  - intros [H _]. unfold is_valid_label in H. destruct w; [discriminate|cbn; lia].
 Qed.
 
-Lemma lex_layout_gen l : forall fuel acc, Forall wf_item l -> (length (layout l) < fuel)%nat ->
+(** a function keyword is followed (after its white space) by an opening parenthesis *)
+Definition open_paren : ltok := LPunct TOpenParen ["("%byte].
+Fixpoint fun_ok (l : list (ltok * bytes)) : Prop :=
+  match l with
+  | [] => True
+  | (LFun _ _, _) :: r => match r with (t2, _) :: _ => t2 = open_paren | [] => False end /\ fun_ok r
+  | _ :: r => fun_ok r
+  end.
+
+Lemma skip_wsc_spaces ws : forall fuel r, forallb is_space_b ws = true -> (length ws < fuel)%nat ->
+  skip_ws_comments fuel (ws ++ "("%byte :: r) = "("%byte :: r.
+Proof.
+  induction ws as [|c t IH]; intros fuel r Hw Hf; (destruct fuel as [|f]; [cbn in Hf; lia|]).
+  - reflexivity.
+  - cbn in Hw. apply andb_true_iff in Hw. destruct Hw as [Hc Ht]. cbn [app skip_ws_comments]. rewrite Hc. apply IH; [exact Ht|cbn in Hf; lia].
+Qed.
+
+Lemma fun_step w ty sp ws r f acc : is_valid_label w = true -> lookup_kw w keyword_table = Some ty -> is_function ty = true ->
+  is_space_b sp = true -> forallb is_space_b ws = true ->
+  lex_loop (S f) (w ++ (sp :: ws) ++ "("%byte :: r) acc = lex_loop f ("("%byte :: r) (acc ++ [(ty, w)]).
+Proof.
+  intros Hw E Ef Hsp Hws. unfold is_valid_label in Hw. destruct w as [|c t]; [discriminate|].
+  apply andb_true_iff in Hw. destruct Hw as [Hc Hall].
+  destruct (ident_start_facts c Hc) as [H1 [H2 [H3 [H4 [H5 [H6 [H7 [H8 [H9 H10]]]]]]]]].
+  cbn [app lex_loop]. rewrite H1, H2, H3, H4, H5, H6, H7, H8, H9, H10. cbn [negb andb]. rewrite Hc.
+  change (c :: t ++ sp :: ws ++ "("%byte :: r) with ((c :: t) ++ sp :: (ws ++ "("%byte :: r)).
+  rewrite (span_stop ident_rune (c :: t) (sp :: ws ++ "("%byte :: r) Hall (space_not_ident sp Hsp)).
+  rewrite E, Ef. cbv zeta.
+  change (sp :: ws ++ "("%byte :: r) with ((sp :: ws) ++ "("%byte :: r).
+  rewrite (skip_wsc_spaces (sp :: ws)); [|cbn; rewrite Hsp; exact Hws|rewrite app_length; cbn; lia].
+  reflexivity.
+Qed.
+
+Lemma fun_ok_tail t ws r : fun_ok ((t, ws) :: r) -> fun_ok r.
+Proof. destruct t; cbn; tauto. Qed.
+
+Lemma lex_layout_gen l : forall fuel acc, Forall wf_item l -> fun_ok l -> (length (layout l) < fuel)%nat ->
   lex_loop fuel (layout l) acc = LexOk (acc ++ map (fun p => lres (fst p)) l).
 Proof.
-  induction l as [|[t ws] r IH]; intros fuel acc Hw Hf; (destruct fuel as [|f]; [lia|]).
+  induction l as [|[t ws] r IH]; intros fuel acc Hw Hfn Hf; (destruct fuel as [|f]; [lia|]).
   - cbn. rewrite app_nil_r. reflexivity.
-  - inversion Hw as [|? ? [Ht [Hne Hsp]] Hr]; subst. cbn [fst snd] in *.
+  - inversion Hw as [|? ? [Ht [Hne Hsp]] Hr]; subst. cbn [fst snd] in *. pose proof (fun_ok_tail _ _ _ Hfn) as Hfr.
     destruct ws as [|sp ws']; [congruence|]. cbn in Hsp. apply andb_true_iff in Hsp. destruct Hsp as [Hs Hws].
     cbn [layout] in *. cbn [map fst].
     assert (Hcont : forall f' acc', (length ((sp :: ws') ++ layout r) < f')%nat ->
@@ -208,8 +247,8 @@ Proof.
     { intros f' acc' Hf'. destruct (skip_spaces (sp :: ws') f' (layout r) acc') as [f'' [Hlt ->]]; [cbn; rewrite Hs; exact Hws|exact Hf'|].
       apply IH; assumption. }
     pose proof (ltext_len t Ht) as Hlen. rewrite app_length in Hf.
-    change ((sp :: ws') ++ layout r) with (sp :: (ws' ++ layout r)).
-    destruct t as [n|ty w|ty w|v]; cbn [wf_ltok ltext lres] in *.
+    destruct t as [n|ty w|ty w|v|ty w]; cbn [wf_ltok ltext lres] in *;
+      [change ((sp :: ws') ++ layout r) with (sp :: (ws' ++ layout r)) ..|].
     + destruct Ht as [Hv Hk]. rewrite (word_step n sp _ f acc Hv Hs), Hk.
       change (sp :: ws' ++ layout r) with ((sp :: ws') ++ layout r). rewrite Hcont; [|cbn [app length] in *; rewrite app_length in *; lia].
       rewrite <- app_assoc. reflexivity.
@@ -226,14 +265,21 @@ Proof.
     + cbn [app]. rewrite <- app_assoc. cbn [app]. rewrite (str_step v _ f acc Ht).
       change (sp :: ws' ++ layout r) with ((sp :: ws') ++ layout r). rewrite Hcont; [|cbn [app length] in *; rewrite !app_length in *; cbn [length] in *; lia].
       rewrite <- app_assoc. reflexivity.
+    + destruct Ht as [Hv [Hk Hfun]]. cbn [fun_ok] in Hfn. destruct Hfn as [Hnext _].
+      destruct r as [|[t2 ws2] r2]; [contradiction|]. subst t2. cbn [layout ltext open_paren] in *.
+      change (w ++ (sp :: ws') ++ ["("%byte] ++ ws2 ++ layout r2) with (w ++ (sp :: ws') ++ "("%byte :: (ws2 ++ layout r2)).
+      rewrite (fun_step w ty sp ws' _ f acc Hv Hk Hfun Hs Hws).
+      change ("("%byte :: ws2 ++ layout r2) with (layout ((open_paren, ws2) :: r2)).
+      rewrite IH; [|exact Hr|exact Hfr|cbn [layout ltext open_paren app length] in *; repeat (rewrite app_length in * || cbn [length app] in * ); lia].
+      rewrite <- app_assoc. reflexivity.
 Qed.
 
 (** the layout is insignificant: tokens separated by any non-empty white space lex to the same token sequence *)
-Theorem lex_layout_lemma l : Forall wf_item l -> lex (layout l) = LexOk (map (fun p => lres (fst p)) l).
-Proof. intro H. unfold lex. apply (lex_layout_gen l _ [] H). lia. Qed.
+Theorem lex_layout_lemma l : Forall wf_item l -> fun_ok l -> lex (layout l) = LexOk (map (fun p => lres (fst p)) l).
+Proof. intros H Hf. unfold lex. apply (lex_layout_gen l _ [] H Hf). lia. Qed.
 
-Corollary lex_layout_indep l1 l2 : Forall wf_item l1 -> Forall wf_item l2 -> map fst l1 = map fst l2 -> lex (layout l1) = lex (layout l2).
+Corollary lex_layout_indep l1 l2 : Forall wf_item l1 -> Forall wf_item l2 -> fun_ok l1 -> fun_ok l2 -> map fst l1 = map fst l2 -> lex (layout l1) = lex (layout l2).
 Proof.
-  intros H1 H2 E. rewrite (lex_layout_lemma l1 H1), (lex_layout_lemma l2 H2). f_equal.
+  intros H1 H2 F1 F2 E. rewrite (lex_layout_lemma l1 H1 F1), (lex_layout_lemma l2 H2 F2). f_equal.
   rewrite <- !(map_map fst lres). rewrite E. reflexivity.
 Qed.
